@@ -12,30 +12,36 @@ TOL = 1e-6
 # --------------------------------------------------------------------------- generators
 
 def gen_polyline(rng, big=False):
-    n = rng.choice([2, 3, 4, 5, 8, 12, 20, 40] + ([120, 300, 500] if big else []))
+    """An (h, T) profile as OpenPinch passes it ([enthalpy, temperature] rows, supply end first): a hot stream runs
+    down in h and T, a cold stream up.  Shapes: smooth curvature, kinks, isothermal plateaus (phase change), steps
+    without enthalpy change, collinear runs, a repeated neighbouring point."""
+    n = rng.choice([2, 3, 4, 5, 8, 12, 20, 40, 40] + ([120, 300, 500] if big else []))
+    hot = rng.random() < 0.5
+    sgn = -1.0 if hot else 1.0
     t = float(rng.randrange(20, 40) * 10)
     h = float(rng.randrange(0, 50) * 100)
-    pts = [[t, h]]
-    shape = rng.choice(["smooth", "kinks", "plateaus", "steps", "collinear"])
-    slope = rng.choice([5.0, 20.0, 100.0])
+    pts = [[h, t]]
+    shape = rng.choice(["smooth", "smooth", "kinks", "plateaus", "steps", "collinear"])
+    cp = rng.choice([0.5, 2.0, 4.0, 50.0, 2000.0])          # dh per K (kJ/kg or J/kg scale)
     for i in range(n - 1):
         r = rng.random()
         if shape == "collinear":
-            dt, dh = 5.0, slope * 5.0
+            dt, dh = 5.0, cp * 5.0
         elif shape == "plateaus" and r < 0.3:
-            dt, dh = 0.0, float(rng.randrange(1, 9) * 100)      # isothermal (vertical in T-h)
-        elif shape == "steps" and r < 0.3:
-            dt, dh = float(rng.randrange(1, 5)), 0.0            # no enthalpy change
+            dt, dh = 0.0, cp * float(rng.randrange(10, 90))      # isothermal: h changes, T does not
+        elif shape == "steps" and r < 0.2:
+            dt, dh = float(rng.randrange(1, 5)), 0.0            # T changes at constant h
         else:
             dt = rng.choice([0.5, 1.0, 2.0, 5.0])
-            slope = max(1.0, slope * rng.choice([1.0, 1.0, 1.02, 0.97, 1.5, 0.6]) if shape != "smooth" else slope * rng.choice([1.0, 1.01, 0.99, 1.03]))
-            dh = slope * dt
-        t -= dt; h -= dh
-        pts.append([round(t, 6), round(h, 6)])
+            cp = max(0.1, cp * (rng.choice([1.0, 1.0, 1.02, 0.97, 1.5, 0.6]) if shape != "smooth" else rng.choice([1.0, 1.01, 0.99, 1.03, 1.05])))
+            dh = cp * dt
+        t += sgn * dt; h += sgn * dh
+        pts.append([round(h, 6), round(t, 6)])
     if rng.random() < 0.1:
-        pts.insert(rng.randrange(len(pts)), list(pts[rng.randrange(len(pts))]))     # repeated point
-    eps = rng.choice([0.1, 0.5, 1.0, 5.0, 0.01])
-    return {"kind": "rdp", "curve": pts, "eps": eps, "hot": rng.random() < 0.5}
+        k = rng.randrange(len(pts))
+        pts.insert(k, list(pts[k]))                              # repeated neighbouring point
+    eps = rng.choice([0.1, 0.5, 1.0, 5.0, 0.01, 0.01] if n < 20 else [0.1, 0.01, 0.01, 0.001, 0.5])
+    return {"kind": "rdp", "curve": pts, "eps": eps, "hot": hot, "shape": shape}
 
 
 def gen_cc(rng):
@@ -103,37 +109,79 @@ def perp(p, a, b):
     return abs(lx * (p[1] - a[1]) - ly * (p[0] - a[0])) / n
 
 
+def seg_dist(p, a, b):
+    lx, ly = b[0] - a[0], b[1] - a[1]
+    L = lx * lx + ly * ly
+    t = 0.0 if L == 0 else max(0.0, min(1.0, ((p[0] - a[0]) * lx + (p[1] - a[1]) * ly) / L))
+    return math.hypot(p[0] - a[0] - t * lx, p[1] - a[1] - t * ly)
+
+
+def interp_T(poly, h):
+    """T of a strictly h-monotone polyline at enthalpy h."""
+    for (ha, ta), (hb, tb) in zip(poly, poly[1:]):
+        if min(ha, hb) <= h <= max(ha, hb):
+            return ta + (tb - ta) * (h - ha) / (hb - ha)
+    return None
+
+
 def rdp_oracle(case, res):
+    """Clauses of the statement on `_rdp` (key rdp) and on `get_piecewise_data_points` (key pw)."""
     fails = []
-    curve, eps = case["curve"], case["eps"]
+    curve, eps, hot = case["curve"], case["eps"], case["hot"]
+    sgn = -1.0 if hot else 1.0
     for key in ("rdp", "pw"):
         pts = res[key]
         if isinstance(pts, str):
-            fails.append(("linearisation_total", f"{key}: {pts}", "np_cross_2d" if len(curve) > 2 else None)); continue
+            fails.append(("linearisation_total", f"{key}: {pts}", None)); continue
+        refined = key == "pw" and not all(p in curve for p in pts)
+        # the >10-breakpoint path hands the points to an SLSQP refinement that moves them
+        cause_ref = "slsqp_refinement" if refined else None
         if pts[0] != curve[0] or pts[-1] != curve[-1]:
             fails.append(("keeps_end_points", f"{key}: ends {pts[0]}, {pts[-1]} vs {curve[0]}, {curve[-1]}", None))
-        if key == "rdp" or len(pts) <= 10:
-            # a subsequence of the original, in order
+        if not refined:
             it = iter(curve)
             if not all(any(p == q for q in it) for p in pts):
-                fails.append(("original_order", f"{key}: not a subsequence", None))
-            # every original point within eps of the chord that covers it
-            idx = []
-            j = 0
+                fails.append(("original_order", f"{key}: not a subsequence of the original", None)); continue
+            idx, j = [], 0
             for p in pts:
                 while curve[j] != p:
                     j += 1
-                idx.append(j); j += 1 if False else 0
+                idx.append(j); j += 1
             for (a, b) in zip(idx, idx[1:]):
-                for i in range(a + 1, b):
-                    d = perp(curve[i], curve[a], curve[b])
-                    if d > eps * (1 + 1e-9) + 1e-12:
-                        fails.append(("within_deviation", f"{key}: point {i} {curve[i]} is {d} from chord {curve[a]}-{curve[b]}, eps {eps}", None)); break
+                bad = [i for i in range(a + 1, b) if perp(curve[i], curve[a], curve[b]) > eps * (1 + 1e-9) + 1e-12]
+                if bad:
+                    i = bad[0]
+                    fails.append(("within_deviation", f"{key}: point {i} {curve[i]} is {perp(curve[i], curve[a], curve[b])} from chord {curve[a]}-{curve[b]}, eps {eps}", None)); break
         else:
-            xs = [p[0] for p in pts]
-            if any(b > a + 1e-9 for a, b in zip(xs, xs[1:])) and any(b < a - 1e-9 for a, b in zip(xs, xs[1:])):
-                fails.append(("original_order", f"{key}: refined points not monotone in T", None))
+            if any((b[0] - a[0]) * sgn < -1e-9 or (b[1] - a[1]) * sgn < -1e-9 for a, b in zip(pts, pts[1:])):
+                fails.append(("original_order", f"{key}: refined points run backwards in h or T", cause_ref))
+        # every original point within eps of the simplified polyline
+        worst = max((min(seg_dist(p, a, b) for a, b in zip(pts, pts[1:])), i) for i, p in enumerate(curve)) if len(pts) > 1 else (0.0, 0)
+        if worst[0] > eps * (1 + 1e-6) + 1e-9:
+            fails.append(("within_deviation", f"{key}: original point {worst[1]} {curve[worst[1]]} is {worst[0]} from the simplified polyline, eps {eps}", cause_ref))
+        # one-sided bound of the piecewise linearisation (temperature at equal enthalpy)
+        if key == "pw" and all((b[0] - a[0]) * sgn > 0 for a, b in zip(pts, pts[1:])) and all((b[0] - a[0]) * sgn > 0 for a, b in zip(curve, curve[1:])):
+            d = [(interp_T(pts, h) - t, i) for i, (h, t) in enumerate(curve) if interp_T(pts, h) is not None]
+            v, i = max(d) if hot else max((-x, i) for x, i in d)
+            if v > eps / 10 * (1 + 1e-6) + 1e-9:
+                cause = cause_ref or "one_sided_bound_unrefined"      # plain RDP output: the one-sided refinement never ran
+                fails.append(("one_sided_bound", f"pw: simplified {'hot' if hot else 'cold'} profile is {v} K {'above' if hot else 'below'} the original at point {i} {curve[i]}; allowed {eps / 10}", cause))
     return fails
+
+
+def locally_collinear(pairs, kept):
+    """Every removed interior point lies within TOL (in T) of the chord of its two ORIGINAL neighbours — the only test
+    clean_composite_curve applies, which lets a slowly bending run drift away point by point."""
+    for i in range(1, len(pairs) - 1):
+        if pairs[i] in kept:
+            continue
+        (x1, y1), (x2, y2), (x3, y3) = pairs[i - 1], pairs[i], pairs[i + 1]
+        if x1 == x3:
+            if x1 != x2:
+                return False
+        elif abs(y2 - (y1 + (y3 - y1) * (x2 - x1) / (x3 - x1))) > TOL * 1.001:
+            return False
+    return True
 
 
 def clean_oracle(case, res):
@@ -166,7 +214,7 @@ def clean_oracle(case, res):
                     yi = ya + (yb - ya) * (hx - xa) / (xb - xa)
                     ok = ok or abs(yi - ty) <= TOL * 1.000001 + 1e-9 * abs(ty)
         if not ok and len(x) >= 2:
-            fails.append(("deviation_le_tol", f"original point (H={hx}, T={ty}) is off the kept polyline {list(zip(x, y))}", "local_collinearity_drift" if case.get("shape") == "drift" else None))
+            fails.append(("deviation_le_tol", f"original point (H={hx}, T={ty}) is off the kept polyline {list(zip(x, y))}", "local_collinearity_drift" if locally_collinear(pairs[lo_i:hi_i + 1], list(zip(x, y))) else None))
             break
     return fails
 
@@ -195,7 +243,9 @@ def run(ctx: Ctx):
     for i, c in enumerate(rc):
         res = impl_rdp(c)
         kept = res["rdp"] if isinstance(res["rdp"], list) else []
-        ctx.count({"kind": "rdp", "n": len(c["curve"]), "eps": c["eps"], "head": c["curve"][:3]}, 2 < len(kept) < len(c["curve"]), ["rdp", f"n<={10 * (1 + len(c['curve']) // 10)}"])
+        ctx.count({"kind": "rdp", "n": len(c["curve"]), "eps": c["eps"], "head": c["curve"][:3]}, 2 < len(kept) < len(c["curve"]),
+                  ["rdp", f"n<={10 * (1 + len(c['curve']) // 10)}", "shape_" + c.get("shape", "corpus"), "hot" if c["hot"] else "cold",
+                   "pw_refined" if isinstance(res["pw"], list) and not all(p in c["curve"] for p in res["pw"]) else "pw_plain"])
         for clause, detail, cause in rdp_oracle(c, res):
             ctx.oracle_fail(c, detail, cause, clause)
         if model is not None and isinstance(res["rdp"], list):
